@@ -5,6 +5,7 @@ import (
 	"math/big"
 
 	. "gethverif/harness/hxlib"
+	"github.com/ethereum/go-ethereum/core/vm"
 )
 
 // ------------------------------------------------------------------ arena scripts
@@ -99,8 +100,10 @@ func genArenaWalk(r *Rng) Sx {
 				k = r.Range(-2, 40)
 			}
 			ops = append(ops, L(I(8), I(int64(k)), randWord(r)))
-		case x < 91:
+		case x < 90:
 			ops = append(ops, L(I(9)))
+		case x < 91:
+			ops = append(ops, L(I(int64(r.Range(11, 13))), I(int64(r.Intn(260)))))
 		default:
 			k := r.Intn(max(d, 1))
 			if wild && r.Chance(1, 3) {
@@ -147,6 +150,68 @@ func genArenaLimit(r *Rng) Sx {
 	dirt := 0
 	if r.Bool() {
 		dirt = r.Range(1, 5000)
+	}
+	return L(I(0), I(int64(dirt)), ops)
+}
+
+// EIP-8024 at the frame boundary: a child frame holding h items, h around what DUPN / SWAPN /
+// EXCHANGE with a given immediate need, above a parent that holds live items
+func pairOf(x int) (int, int) {
+	k := x ^ 143
+	q, r := k/16, k%16
+	if q < r {
+		return q + 1, r + 1
+	}
+	return r + 1, 29 - q
+}
+
+func genArena8024(r *Rng) Sx {
+	var ops SL
+	ops = append(ops, L(I(0)))
+	for i, n := 0, r.Range(1, 4); i < n; i++ {
+		ops = append(ops, L(I(2), randWord(r)))
+	}
+	if r.Bool() { // one more level: the boundary is not at arena index 0
+		ops = append(ops, L(I(0)), L(I(2), randWord(r)), L(I(2), randWord(r)))
+	}
+	ops = append(ops, L(I(0)))
+	code := r.Range(11, 13)
+	x := r.Intn(256)
+	if r.Chance(1, 12) {
+		x = r.Range(80, 130) // around the forbidden ranges
+	}
+	need := (x + 145) % 256
+	if code == 12 {
+		need++
+	}
+	if code == 13 {
+		a, b := pairOf(x)
+		need = max(a, b) + 1
+	}
+	if r.Chance(2, 3) && need > 40 { // mostly shallow depths: shorter scripts
+		x = 128 + r.Intn(24) // n = 17 .. 40
+		need = (x+145)%256 + code - 11
+		if code == 13 {
+			x = r.Intn(256)
+			a, b := pairOf(x)
+			need = max(a, b) + 1
+		}
+	}
+	h := max(need+r.Range(-2, 2), 0)
+	for i := 0; i < h; i++ {
+		ops = append(ops, L(I(2), I(int64(1000+i))))
+	}
+	ops = append(ops, L(I(int64(code)), I(int64(x))))
+	for i, n := 0, r.Intn(3); i < n; i++ { // a few more around the same boundary
+		ops = append(ops, L(I(int64(r.Range(11, 13))), I(int64(x+r.Range(-1, 1)&255))))
+		if r.Bool() {
+			ops = append(ops, L(I(2), I(7)))
+		}
+	}
+	ops = append(ops, L(I(10), I(1)), L(I(10), I(0)), L(I(1)), L(I(10), I(0)), L(I(3)), L(I(1)))
+	dirt := 0
+	if r.Bool() {
+		dirt = r.Range(1, 3000)
 	}
 	return L(I(0), I(int64(dirt)), ops)
 }
@@ -437,7 +502,7 @@ func progRandom(r *Rng) Sx {
 	h := 0
 	n := r.Range(5, 60)
 	bin := []byte{0x01, 0x02, 0x03, 0x04, 0x05, 0x06, 0x07, 0x0a, 0x0b, 0x10, 0x11, 0x12, 0x13, 0x14, 0x16, 0x17, 0x18, 0x1a, 0x1b, 0x1c, 0x1d}
-	env := []byte{0x30, 0x32, 0x33, 0x34, 0x36, 0x38, 0x3a, 0x3d, 0x41, 0x42, 0x43, 0x44, 0x46, 0x47, 0x48, 0x58, 0x59, 0x5a}
+	env := []byte{0x30, 0x32, 0x33, 0x34, 0x36, 0x38, 0x3d, 0x41, 0x42, 0x43, 0x44, 0x46, 0x47, 0x48, 0x58, 0x59, 0x5a}
 	for i := 0; i < n && h < 900; i++ {
 		switch x := r.Intn(100); {
 		case x < 22:
@@ -521,8 +586,8 @@ func progRandom(r *Rng) Sx {
 				h--
 			}
 		default:
-			b := byte(r.U64()) // anything, also undefined opcodes and truncated PUSH data
-			if b == 0x45 {
+			b := byte(r.U64())          // anything, also undefined opcodes and truncated PUSH data
+			if b == 0x45 || b == 0x3a { // (GASPRICE carries the callers' sentinel words)
 				b = 0x44 // GASLIMIT is the block gas limit, which core/vm/runtime ties to the call's gas: depth-dependent by construction
 			}
 			a.op(b)
@@ -598,6 +663,53 @@ func progPrecompile(r *Rng, addr int, input []byte) Sx {
 	c := []byte{0x36, 0x5f, 0x5f, 0x37, 0x5f, 0x5f, 0x36, 0x5f, 0x5f, 0x61, byte(addr >> 8), byte(addr), 0x5a, 0xf1,
 		0x5f, 0x52, 0x3d, 0x5f, 0x60, 0x20, 0x3e, 0x3d, 0x60, 0x20, 0x01, 0x5f, 0xf3}
 	return progSx(c, input, 1500000, 6, nil, false)
+}
+
+// template 7: boundary probe — ANY opcode byte executed at a stack height around what it needs
+// (jump table minStack / maxStack; for the EIP-8024 opcodes around what their immediate asks
+// for), then the top of the stack is returned. Run directly and below callers with live stack
+// items: the answer may not depend on where the frame sits in the arena.
+func progProbe(r *Rng) Sx {
+	op := byte(r.U64())
+	if r.Chance(1, 3) {
+		op = []byte{0xe6, 0xe7, 0xe8}[r.Intn(3)]
+	}
+	for op == 0x3a || op == 0x45 { // see progRandom
+		op = byte(r.U64())
+	}
+	mn, mx, _ := vm.VerifC28StackBounds(vm.OpCode(op))
+	h := max(mn+r.Range(-1, 1), 0)
+	if r.Chance(1, 25) {
+		h = mx + r.Range(-1, 1)
+	}
+	var imm []byte
+	switch op {
+	case 0xe6, 0xe7:
+		x := byte(r.U64())
+		if r.Chance(2, 3) {
+			x = byte(128 + r.Intn(30))
+		}
+		imm = []byte{x}
+		h = max(vm.VerifC28DecodeSingle(x)+r.Range(-2, 2), 0)
+	case 0xe8:
+		x := byte(r.U64())
+		imm = []byte{x}
+		a, b := vm.VerifC28DecodePair(x)
+		h = max(max(a, b)+r.Range(-1, 3), 0)
+	default:
+		if op >= 0x60 && op <= 0x7f {
+			imm = r.Bytes(int(op) - 0x5f)
+		}
+	}
+	h = min(h, 1025)
+	var a asm
+	for i := 0; i < h; i++ {
+		a.op(0x60, byte(i%250+1))
+	}
+	a.op(op)
+	a.op(imm...)
+	a.op(0x5f, 0x52, 0x60, 0x20, 0x5f, 0xf3) // PUSH0 MSTORE PUSH1 32 PUSH0 RETURN: the top of the stack
+	return progSx(a.b, r.Bytes(r.Intn(40)), 200000, 7, nil, false)
 }
 
 var pcAddrs = []int{1, 2, 3, 4, 5, 6, 7, 8, 9, 0xa, 0xb, 0xc, 0xd, 0xe, 0xf, 0x10, 0x11, 0x100}
@@ -704,8 +816,10 @@ func genEVM(r *Rng) Sx {
 				progs = append(progs, progDirty(r)) // a dirtying program first, then the reader
 			}
 			progs = append(progs, progMemory(r))
-		case x < 14:
+		case x < 12:
 			progs = append(progs, progRandom(r))
+		case x < 14:
+			progs = append(progs, progProbe(r), progProbe(r))
 		case x < 17:
 			// two codes whose JUMPDESTs sit where the other one has PUSH data
 			ks1, ks2 := jumpShape(r), jumpShape(r)
@@ -763,6 +877,9 @@ func gen(r *Rng, tier string, emit func(Sx)) {
 	for i := 0; i < 6*mul; i++ {
 		emit(genArenaLimit(r.Fork()))
 	}
+	for i := 0; i < 300*mul; i++ {
+		emit(genArena8024(r.Fork()))
+	}
 	for i := 0; i < 900*mul; i++ {
 		emit(genMem(r.Fork()))
 	}
@@ -772,4 +889,102 @@ func gen(r *Rng, tier string, emit func(Sx)) {
 	for i := 0; i < 300*mul; i++ {
 		emit(genPrecompile(r.Fork()))
 	}
+	for i := 0; i < 120*mul; i++ {
+		emit(genProbes(r.Fork()))
+	}
+	for i := 0; i < 150*mul; i++ {
+		emit(genHistory(r.Fork()))
+	}
+}
+
+// a kind-2 case made of boundary probes only, on the newest rule set mostly, each run directly
+// and at two depths
+func genProbes(r *Rng) Sx {
+	var progs, runs SL
+	for i := 0; i < 4; i++ {
+		progs = append(progs, progProbe(r))
+		runs = append(runs, L(I(int64(i)), I(-1), I(0)), L(I(int64(i)), I(int64(r.Range(0, 1))), I(int64(r.Intn(3)))),
+			L(I(int64(i)), I(int64(r.Range(2, 6))), I(int64(r.Intn(3)))))
+	}
+	cfg := 2
+	if r.Chance(1, 5) {
+		cfg = r.Intn(2)
+	}
+	return L(I(2), I(int64(cfg)), progs, runs, I(0), Bool(r.Bool()))
+}
+
+// ------------------------------------------------------------------ kind 4: call histories
+//
+// (4 cfg (step ...))   step ::= (0 a x<code>)      code of account a changes
+//                             | (1 a t)            account a becomes an EIP-7702 delegation to account t
+//                             | (2 a x<input> gas) a message call to account a
+// Accounts are 0x5000+a, a < 8. The SAME history is executed with everything fresh per call and
+// with shared / reused caches, EVM, arena and pools.
+
+func codeOf(p Sx) []byte { return AsBytes(AsList(p)[0]) }
+
+// forwarder: keeps two live words, calls account t with its calldata, returns the callee's
+// return data followed by the two words
+func codeForward(t int, w1, w2 []byte) []byte {
+	var a asm
+	a.push32(w1)
+	a.push32(w2)
+	a.op(0x36, 0x5f, 0x5f, 0x37, 0x5f, 0x5f, 0x36, 0x5f, 0x5f)
+	a.call(0x5000 + t)
+	a.op(0x50, 0x3d, 0x5f, 0x5f, 0x3e, 0x3d, 0x52, 0x3d, 0x60, 0x20, 0x01, 0x52, 0x3d, 0x60, 0x40, 0x01, 0x5f, 0xf3)
+	return a.b
+}
+
+func genHistory(r *Rng) Sx {
+	const nacc = 8
+	shapes := [][]int{jumpShape(r), jumpShape(r), jumpShape(r)}
+	var layouts [][]int
+	for _, ks := range shapes {
+		p, _ := jumpLayout(ks)
+		layouts = append(layouts, p)
+	}
+	someCode := func() []byte {
+		switch x := r.Intn(20); {
+		case x < 11: // jump-heavy code; targets may be JUMPDESTs of one of the other layouts
+			i := r.Intn(3)
+			return codeOf(progJumps(r, shapes[i], layouts[(i+1+r.Intn(2))%3]))
+		case x < 14:
+			return codeOf(progRandom(r))
+		case x < 16:
+			return codeOf(progMemory(r))
+		case x < 18:
+			return codeOf(progProbe(r))
+		default:
+			return codeOf(progArena(r))
+		}
+	}
+	var steps SL
+	// accounts 0-2: code; 3-4: delegations; 5-6: forwarders; 7: code
+	for a := 0; a < 3; a++ {
+		steps = append(steps, L(I(0), I(int64(a)), B(someCode())))
+	}
+	steps = append(steps, L(I(1), I(3), I(int64(r.Intn(3)))), L(I(1), I(4), I(int64(r.Intn(3)))))
+	steps = append(steps, L(I(0), I(5), B(codeForward(r.Range(0, 4), r.Bytes(32), r.Bytes(32)))),
+		L(I(0), I(6), B(codeForward(r.Range(3, 5), r.Bytes(32), r.Bytes(32)))), L(I(0), I(7), B(someCode())))
+	for i, n := 0, r.Range(5, 14); i < n; i++ {
+		switch x := r.Intn(20); {
+		case x < 13:
+			steps = append(steps, L(I(2), I(int64(r.Intn(nacc))), B(r.Bytes(r.Intn(40))), U(uint64(r.Range(60000, 400000)))))
+		case x < 17: // the code behind an address (possibly behind a delegation) changes, then it is called again
+			a := r.Intn(3)
+			steps = append(steps, L(I(0), I(int64(a)), B(someCode())))
+			if r.Bool() {
+				steps = append(steps, L(I(2), I(int64(r.Range(3, 6))), B(nil), U(300000)))
+			}
+		case x < 19:
+			steps = append(steps, L(I(1), I(int64(r.Range(3, 4))), I(int64(r.Intn(3)))))
+		default:
+			steps = append(steps, L(I(0), I(int64(r.Range(3, 7))), B(someCode())))
+		}
+	}
+	cfg := r.Range(1, 2)
+	if r.Chance(1, 8) {
+		cfg = 0
+	}
+	return L(I(4), I(int64(cfg)), steps)
 }
